@@ -51,6 +51,8 @@ class Lib:
         from . import np_models
         self.interp = None
         self.table = {}
+        _ITP.clear()
+        _ITP.append(None)
         self.exc_bases = {'SignalProcessingError': 'Exception', 'SignalProcessingWarning': 'Warning'}
         np_models.register(self)
 
@@ -104,6 +106,9 @@ class Lib:
     def convert(self, tname, args, kwargs):
         if tname == 'float':
             (x,) = args
+            from . import text as TX
+            if isinstance(x, TX.SymStr):
+                return TX.parse_float(self.interp, x)
             if isinstance(x, str):
                 return parse_float(x)
             if is_arr(x):
@@ -163,6 +168,7 @@ class Lib:
 
     def binop(self, op, a, b):
         from .interp import TypeVal
+        _ITP[0] = self.interp
         if op in (ast.BitAnd, ast.BitOr):
             f = T.sand if op is ast.BitAnd else T.sor
             if is_arr(a) or is_arr(b):
@@ -170,6 +176,11 @@ class Lib:
             if T.is_bool_like(N(a)) and T.is_bool_like(N(b)):
                 return f(a, b)
             raise EngineError('bitwise op on non-bool')
+        from . import text as TX
+        if isinstance(a, TX.SymStr) or isinstance(b, TX.SymStr):
+            if op is ast.Add:
+                return TX.concat(a, b)
+            raise EngineError('operator on symbolic string')
         if isinstance(a, str) or isinstance(b, str):
             if op is ast.Add and isinstance(a, str) and isinstance(b, str):
                 return a + b
@@ -315,6 +326,11 @@ class Lib:
             if k not in base:
                 raise PyExc('KeyError', repr(k))
             return base[k]
+        from . import text as TX
+        if isinstance(base, TX.SymStr):
+            if isinstance(idx, slice) and idx.stop is None and idx.step is None:
+                return TX.drop_first(self.interp, base, T.concrete_int(idx.start or 0, 'slice start'))
+            raise EngineError('unsupported subscript on a symbolic string')
         if isinstance(base, str):
             if isinstance(idx, slice):
                 return base[slice(*[None if x is None else T.concrete_int(x, 'slice bound') for x in
@@ -597,6 +613,22 @@ class Lib:
     # --------------------------------------------------------------------------------- attributes of values
     def value_attr(self, obj, name):
         from .interp import ExcVal
+        from . import text as TX
+        if isinstance(obj, TX.SymStr):
+            if name == 'split':
+                return lambda sep=None: TX.split_on(obj, sep)
+            if name == 'splitlines':
+                return lambda: TX.splitlines(obj)
+            raise EngineError('str.%s on a symbolic string' % name)
+        if isinstance(obj, TX.FileObj):
+            return getattr(obj, name)
+        if isinstance(obj, str) and name == 'join':
+            def join_(items):
+                items = self.interp.iter_items(items)
+                if any(isinstance(i, TX.SymStr) for i in items):
+                    return TX.join(obj, items)
+                return obj.join(items)
+            return join_
         if is_arr(obj):
             return self.arr_attr(obj, name)
         if isinstance(obj, (list, dict, str, tuple)):
@@ -612,7 +644,7 @@ class Lib:
                 return obj.args
         if isinstance(obj, DTypeVal):
             if name == 'names':
-                return None
+                return getattr(obj, 'names', None)
             if name == 'name':
                 return obj.name
         if T.is_scalar(obj):
@@ -642,7 +674,9 @@ class Lib:
                 s = T.smul(s, d)
             return s
         if name == 'dtype':
-            return DTypeVal(arr.dtype)
+            d = DTypeVal(arr.dtype)
+            d.names = getattr(arr, 'names', None)
+            return d
         if name == 'T':
             return t['numpy.transpose'](arr)
         if name == 'real':
@@ -674,6 +708,7 @@ class Lib:
 
 
 _RANKS = {'bool': 0, 'int': 1, 'float': 2, 'complex': 3, 'object': 4}
+_ITP = [None]
 
 
 def _unsupported(msg):
@@ -752,20 +787,30 @@ def str_format(fmt, args):
                 raise EngineError('%s of non-string')
         elif kind in 'id':
             if not T.is_concrete(a):
-                raise EngineError('formatting a symbolic value')
+                from . import text as TX
+                if not T.is_int_like(a):
+                    raise EngineError('%i of a symbolic non-integer')
+                _ITP[0].assume(T.sge(a, 0))
+                out.append(TX.SymStr([TX.Num(T.to_int_term(a), 0, dot=False)]))
+                continue
             if isinstance(a, str) or a is None:
                 raise PyExc('TypeError', '%i format: a real number is required')
             out.append(str(T.strunc(a)))
         else:
-            if not T.is_concrete(a):
-                raise EngineError('formatting a symbolic value')
             if isinstance(a, str) or a is None:
                 raise PyExc('TypeError', 'must be real number, not str')
             k = int(prec[1:]) if prec else 6
-            out.append(format_fixed(T.fr(a), k))
+            if not T.is_concrete(a):
+                from . import text as TX
+                out.append(TX.fmt_fixed(_ITP[0], a, k))
+            else:
+                out.append(format_fixed(T.fr(a), k))
     out.append(fmt[pos:])
     if ai != len(args):
         raise PyExc('TypeError', 'not all arguments converted during string formatting')
+    if any(not isinstance(o, str) for o in out):
+        from . import text as TX
+        return TX.norm(TX.SymStr(out))
     return ''.join(out)
 
 
